@@ -19,6 +19,25 @@ Q = "h3_quinn::"
 SS = "<h3_quinn::SendStream as h3::quic::SendStream<B>>::"
 
 
+def errors_not_swallowed(ctx, rule="C17-d"):
+    """No method of the Quinn adapter answers success on a path on which a Quinn operation answered Err (shared with C07-b:
+    a reset that is turned into data or a clean end of stream surfaces later as a truncated frame, i.e. a connection error)."""
+    prog = ctx.prog
+    n = 0
+    for b in prog.find(r"^<h3_quinn::(RecvStream|SendStream|BidiStream) as h3::quic::(RecvStream|SendStream<B>|SendStreamUnframed<B>)>::(poll_data|poll_ready|poll_finish|poll_send)$"):
+        ps = [p for p in ru.all_paths(ctx, rule, b, max_visits=1) if p.end == "return"]
+        for p in ps:
+            sh = p.ret_shape()
+            if not (sh.startswith("Ready(Ok") or sh.startswith("Ok(")):
+                continue
+            n += 1
+            bad = [t for t in p.tests if t[3][0] == "discr" and t[2] == "Err" and ("poll@" in t[1] or "quinn" in t[1])]
+            ctx.check(not bad, rule, b.key, "success is answered only when no Quinn operation failed on the path",
+                      "%s answers %s on a path where %s was Err: a Quinn error (reset, stop, connection loss) is reported to h3 as data / end of "
+                      "stream / success instead of through the conversion table" % (b.key, sh[:30], [t[1][-70:] for t in bad][:1]), "", None, p.describe())
+    ctx.floor(rule, "success paths of the adapter's stream methods", n, 6)
+
+
 def run(ctx):
     prog = ctx.prog
     # ------------------------------------------------------------------ C17-a
@@ -181,6 +200,7 @@ def run(ctx):
         "UnsupportedByPeer": ("SendDatagramErrorIncoming::NotAvailable", None, "NotAvailable"), "Disabled": ("SendDatagramErrorIncoming::NotAvailable", None, "NotAvailable"),
         "TooLarge": ("SendDatagramErrorIncoming::TooLarge", None, "TooLarge"),
         "ConnectionLost": ("SendDatagramErrorIncoming::ConnectionError", lambda p: p.has_call(Q + "convert_connection_error"), "ConnectionError (converted)")})
+    errors_not_swallowed(ctx, "C17-d")
     # who may build an h3 transport error in the adapter: only the conversion tables above and the audited sites below, so that
     # no Quinn error reaches h3 without passing through its table (e.g. wrapped wholesale as Unknown)
     AUDITED = {
